@@ -274,12 +274,18 @@ def build(prob):
     RES = resources()
     R = len(prob["res"])
     dr = lambda l: collections.OrderedDict((RES[i], l[i]) for i in range(R))
+    # the key order of a resource dictionary carries no meaning: exceptions (and vertex demands) are
+    # written in rotated key orders so that code relying on positional agreement is exposed
+    def dr_rot(l, k):
+        idx = [(i + k) % R for i in range(R)]
+        return collections.OrderedDict((RES[i], l[i]) for i in idx)
     machine = Machine(prob["w"], prob["h"], chip_resources=dr(prob["res"]),
-                      chip_resource_exceptions={tuple(c): dr(r) for c, r in prob["exc"]},
+                      chip_resource_exceptions={tuple(c): dr_rot(r, c[0] + c[1] + 1) for c, r in prob["exc"]},
                       dead_chips={tuple(c) for c in prob["dead"]})
     vr = collections.OrderedDict()
     for v, d, present in prob["vr"]:
-        vr[v] = {RES[i]: d[i] for i in range(R) if present[i]}
+        rot = (hash(v) if isinstance(v, int) else len(str(v))) % R
+        vr[v] = {RES[i]: d[i] for i in [(j + rot) % R for j in range(R)] if present[i]}
     nets = [Net(s, list(k), wt) for s, k, wt in prob["nets"]]
     cs = []
     for c in prob["cs"]:
